@@ -779,6 +779,61 @@ fn run_multi_scenario(rng: &mut Rng, cases: &mut Vec<Case>) {
     }
 }
 
+/// The engine pulls MATCH rows through the write operator one at a time (no eager barrier): a row deleted by an
+/// earlier row's DETACH DELETE is never produced, openCypher evaluates the MATCH first.  This classifier says
+/// "yes" ONLY when (i) the statement is a MATCH of a relationship pattern (+ WHERE) followed by DELETE / DETACH DELETE
+/// of a matched NODE, (ii) the implementation deleted a strict subset of what the specification deletes and changed
+/// nothing else, and (iii) every surviving node's matching rows all involve an entity the implementation did delete.
+fn is_no_eager_barrier(term: &str, pre: &DumpG, imp: &DumpG, model: &DumpG) -> bool {
+    // (i) shape, from the model term: MR(va,[la],vr,ty,vb,[lb]);W(..)*;D(d,v..)[|R(..)]
+    let body = term.split('|').next().unwrap_or("");
+    let cls: Vec<&str> = body.split(';').collect();
+    let Some(mr) = cls.first().and_then(|c| c.strip_prefix("MR(")).and_then(|c| c.strip_suffix(')')) else { return false };
+    let Some(del) = cls.last().and_then(|c| c.strip_prefix("D(")).and_then(|c| c.strip_suffix(')')) else { return false };
+    if cls.len() < 2 || !cls[1..cls.len() - 1].iter().all(|c| c.starts_with("W(")) {
+        return false;
+    }
+    // va,[la],vr,ty,vb,[lb]
+    let parts: Vec<&str> = mr.split(|c| c == '[' || c == ']').collect();
+    if parts.len() < 5 {
+        return false;
+    }
+    let va = parts[0].trim_end_matches(',');
+    let la: Vec<&str> = parts[1].split(',').filter(|x| !x.is_empty()).collect();
+    let mid: Vec<&str> = parts[2].trim_matches(',').split(',').collect(); // vr, ty, vb
+    if mid.len() != 3 {
+        return false;
+    }
+    let (ty, vb) = (mid[1], mid[2]);
+    let lb: Vec<&str> = parts[3].split(',').filter(|x| !x.is_empty()).collect();
+    let dvars: Vec<&str> = del.split(',').skip(1).collect();
+    let del_a = dvars.contains(&va);
+    let del_b = dvars.contains(&vb);
+    if !del_a && !del_b {
+        return false;
+    }
+    // (ii) strict subset, nothing else changed
+    let ids = |g: &DumpG| g.nodes.iter().map(|n| n.0).collect::<Vec<u64>>();
+    let (pi, ii, mi) = (ids(pre), ids(imp), ids(model));
+    if !mi.iter().all(|x| ii.contains(x)) || !ii.iter().all(|x| pi.contains(x)) || ii.len() == mi.len() {
+        return false;
+    }
+    if !imp.nodes.iter().all(|n| pre.nodes.contains(n)) || !imp.rels.iter().all(|r| pre.rels.contains(r)) || !model.rels.iter().all(|r| imp.rels.contains(r)) {
+        return false;
+    }
+    // (iii) each survivor's rows were invalidated by an entity the implementation deleted
+    let has = |g: &DumpG, id: u64, ls: &Vec<&str>| g.nodes.iter().any(|n| n.0 == id && ls.iter().all(|l| n.1.split('.').any(|x| x == *l)));
+    let survivors: Vec<u64> = ii.iter().filter(|x| !mi.contains(x)).cloned().collect();
+    survivors.iter().all(|n| {
+        let rows: Vec<&(u64, u64, u64, String, String)> = pre
+            .rels
+            .iter()
+            .filter(|r| (ty == "999" || r.3 == ty) && has(pre, r.1, &la) && has(pre, r.2, &lb) && ((del_a && r.1 == *n) || (del_b && r.2 == *n)))
+            .collect();
+        !rows.is_empty() && rows.iter().all(|r| !imp.rels.iter().any(|x| x.0 == r.0) || !ii.contains(&r.1) || !ii.contains(&r.2))
+    })
+}
+
 struct Case {
     pre: String,
     st: St,
@@ -1011,8 +1066,15 @@ fn main() {
             continue;
         }
         if s != "ok" {
-            rep.count(&format!("spec_violation:{}", f.sig));
-            rep.spec_violation(&known, &f.sig, &format!("`{}` on {}: engine {:?} / {} but S gives {}", f.text, f.pre, f.out, f.post, m), &body);
+            // the one structural refinement of a signature that needs the outcome, not only the statement
+            let (_, _, mgraph) = split_reply(m);
+            let sig = match (&f.out, parse_dump(&f.pre), parse_dump(&f.post), parse_dump(&mgraph)) {
+                (Ok(_), Some(a), Some(b), Some(c)) if is_no_eager_barrier(&f.term, &a, &b, &c) => "no-eager-barrier:match-driven-delete".to_string(),
+                _ => f.sig.clone(),
+            };
+            let f_sig = &sig;
+            rep.count(&format!("spec_violation:{}", f_sig));
+            rep.spec_violation(&known, f_sig, &format!("`{}` on {}: engine {:?} / {} but S gives {}", f.text, f.pre, f.out, f.post, m), &body);
             continue;
         }
         // S holds; M must agree with R as well (rows as bags, graph up to the certificate)
